@@ -4,6 +4,10 @@ import json, os, subprocess
 ROOT = os.path.dirname(os.path.dirname(os.path.abspath(__file__)))
 
 CHECKS = {
+    "C06": dict(level="model_checking", design="DESIGN.md section 5 C06",
+                technique="TLC model checking of Values.tla over the boundary set + TLC validation of boundary-route programs against Core.tla + TLA+ monitor TypeMon over typed variable dumps",
+                text="D: TLC checks on every (source type, target type, boundary value) and every (operator, types, boundary pair) that Cast/Arith are total and yield a value in the range of the result type or Overflow. R/V: each boundary value is driven through every storing route (assignment, by-value parameter, FOR start/limit/increment, READ, array element, record field, FUNCTION result, by-reference copy-out, STATIC local) from literals, typed variables and sums; expectation (stored value or error 6 at that statement) from Core.tla. M: the hook dumps every variable at statement boundaries; TypeMon.tla checks each dumped value is a value of its variable's type.",
+                note="Trusted: renderer, TLC, the dump hook. Fractions only as x.1/.4/.6/.9 constants converted to whole-number types; ties excluded."),
     "C03": dict(level="model_checking", design="DESIGN.md section 5 C03",
                 technique="TLA+ reference semantics (Core.tla call actions: copy-in/copy-out, activations, statics); TLC validates recorded runs",
                 text="Call programs: 5 parameter types x 8 argument shapes (variable, array element, literal, parenthesised, expression, function call, converted, computed subscript), two-parameter copy-out order, fresh locals incl. recursion, FUNCTION results assigned 0/1/2 times, ALL call histories up to length 4/5 of a STATIC sub called directly, through another SUB, and interleaved with other subprograms, DIM SHARED and CONST identity, calls nested in argument lists in all orders, run-time errors at call depth 1-3 with call-site rows. Each recorded run is validated by TLC against Core.tla.",
